@@ -198,6 +198,9 @@ func (g XGen) genAttrs(t *rapid.T, e *XElem) {
 	seen := map[string]bool{}
 	for i := 0; i < na; i++ {
 		a := XAttr{Local: rapid.SampledFrom(xmlNames).Draw(t, "aname"), Value: g.text(t, "aval")}
+		if rapid.IntRange(0, 9).Draw(t, "emptyattr") == 0 {
+			a.Value = "" // an attribute may be empty, element text never reaches the Map empty
+		}
 		if g.Namespaces {
 			switch rapid.IntRange(0, 9).Draw(t, "akind") {
 			case 0:
@@ -388,7 +391,7 @@ func refDecode(e *XElem, o Opts) (string, interface{}) {
 // ---- leaf texts for the cast properties (C14, and C01 under cast) ----
 
 var castTexts = []string{
-	"0", "1", "-1", "+1", "42", "007", "9223372036854775807", "-9223372036854775808", "9223372036854775808", "18446744073709551615", "18446744073709551616",
+	"0", "", "1", "-1", "+1", "42", "007", "9223372036854775807", "-9223372036854775808", "9223372036854775808", "18446744073709551615", "18446744073709551616",
 	"1.0", "1.5", "-0.5", ".5", "5.", "1e3", "1E3", "1e-3", "1E400", "-1e400", "0x1p-2", "0x10", "1_0", "1_000.5", "0b1", "0o7",
 	"NaN", "nan", "NAN", "nAn", "+NaN", "-nan", "Inf", "inf", "INF", "+Inf", "+inf", "-Inf", "-INF", "Infinity", "infinity", "INFINITY", "+Infinity", "-infinity", "+INFINITY", "infinit", "in", "na",
 	"t", "T", "true", "TRUE", "True", "f", "F", "false", "FALSE", "False", "tRuE", "yes", "no", "tr", "falsee", "truee", "fals",
